@@ -84,6 +84,9 @@ pub enum Seg {
     Hole(u64),
     /// magic + length prefix + block bytes; `rec` = index into `Plan::recs` whose (file, data_pos) is set
     Blk { bytes: Vec<u8>, rec: Option<usize>, magic: u32 },
+    /// length prefix + block bytes WITHOUT the four magic bytes in front (the index locates a block by the offset of its
+    /// first byte; only the four bytes before it - the length - are part of the addressing)
+    BlkBare { bytes: Vec<u8>, rec: Option<usize> },
 }
 
 #[derive(Clone, Debug)]
@@ -182,6 +185,14 @@ impl Plan {
                         w.w.flush().map_err(|e| e.to_string())?;
                         w.hole(*n).map_err(|e| e.to_string())?;
                         end_with_hole = true;
+                    }
+                    Seg::BlkBare { bytes, rec } => {
+                        w.put(&(bytes.len() as u32).to_le_bytes()).map_err(|e| e.to_string())?;
+                        if let Some(r) = rec {
+                            self.recs[*r].file = f.number;
+                            self.recs[*r].data_pos = w.pos;
+                        }
+                        w.put(bytes).map_err(|e| e.to_string())?;
                     }
                     Seg::Blk { bytes, rec, magic } => {
                         w.put(&magic.to_le_bytes()).map_err(|e| e.to_string())?;
